@@ -336,12 +336,12 @@ def _k(rid, harness, serves, text, complete=True, tier='quick', features='', fn=
 
 # header accessors (seam 2: shim specs vs gc_ptr.rs)
 _HDR = ['C01', 'C04', 'C05', 'C17']
-_k('K.hdr.tag_bits_free', 'k_hdr_tag_bits_free', _HDR, 'GcVtable alignment >= 16 leaves the four flag bits free; GcHeader::new = White, !needs_trace, !live, next None')
-_k('K.hdr.getters', 'k_hdr_getters', _HDR, 'color / needs_trace / is_live / vtable read exactly bits 0x3 / 0x4 / 0x8 / the untagged pointer')
-_k('K.hdr.set_color', 'k_hdr_set_color', _HDR, 'set_color writes bits 0x3 only; flags, next and vtable pointer intact')
-_k('K.hdr.set_live', 'k_hdr_set_live', _HDR, 'set_live writes bit 0x8 only')
-_k('K.hdr.set_needs_trace', 'k_hdr_set_needs_trace', _HDR, 'set_needs_trace writes bit 0x4 only')
-_k('K.hdr.set_next', 'k_hdr_set_next', _HDR, 'set_next writes the link only')
+_k('K.hdr.tag_bits_free', 'k_hdr_tag_bits_free', _HDR, 'GcHeader::new = White, !needs_trace, !live, next None, carrying the vtable it was given')
+_k('K.hdr.getters', 'k_hdr_getters', _HDR, 'colour / needs_trace / live / next each read back what was written, whatever the other fields hold; vtable pointer intact (stated over the accessors, not over the bit packing)')
+_k('K.hdr.set_color', 'k_hdr_set_color', _HDR, 'set_color on a header in an arbitrary state changes the colour only (flags, link, vtable pointer intact)')
+_k('K.hdr.set_live', 'k_hdr_set_live', _HDR, 'set_live changes the live flag only')
+_k('K.hdr.set_needs_trace', 'k_hdr_set_needs_trace', _HDR, 'set_needs_trace changes that flag only')
+_k('K.hdr.set_next', 'k_hdr_set_next', _HDR, 'set_next changes the link only')
 # layout kernel
 _k('K.layout.prefix_header_kernel', 'k_layout_prefix_header_kernel', ['C17', 'C04'], 'prefix_header_layout for ALL header/value layouts: value offset and header position aligned, value inside block, alignment = max')
 _k('K.layout.meta_header_kernel', 'k_layout_meta_header_kernel', ['C17'], 'META_HEADER_LAYOUT arithmetic for symbolic metadata layouts: header is the tail of the meta+header block')
